@@ -46,6 +46,35 @@ IsoStep(D1, D2, st, pr) ==
                   IN [m |-> m2, rm |-> st.rm \cup {<<q2, q1>>}, todo |-> todo2,
                       result |-> IF todo2 = {} THEN "true" ELSE "none"]
 
+(* ---------- dfa_minimize + dfa_from_table (table filling) ---------- *)
+(* ord: the order list(Q) produced (a sequence enumerating D.Q); table[<<i,j>>] for i <= j *)
+TfPairs(n) == {<<i, j>> \in (1..n) \X (1..n) : i <= j}
+TfIdx(ord, q) == CHOOSE i \in DOMAIN ord : ord[i] = q
+TfInit(D, ord) == [p \in TfPairs(Len(ord)) |-> (ord[p[1]] \in D.F) = (ord[p[2]] \in D.F)]
+RECURSIVE TfPairList(_, _, _)
+TfPairList(n, i, j) == IF i >= n THEN <<>>
+                       ELSE IF j > n THEN TfPairList(n, i + 1, i + 2)
+                       ELSE <<<<i, j>>>> \o TfPairList(n, i, j + 1)
+RECURSIVE TfSweepFrom(_, _, _, _)
+TfSweepFrom(D, ord, t, ps) ==
+  IF ps = <<>> THEN t
+  ELSE LET p == Head(ps)
+           hit == t[p] /\ \E a \in D.S :
+                     LET k == TfIdx(ord, Delta(D, ord[p[1]], a))
+                         m == TfIdx(ord, Delta(D, ord[p[2]], a))
+                     IN ~t[<<Min2(k, m), Max2(k, m)>>]
+       IN TfSweepFrom(D, ord, IF hit THEN [t EXCEPT ![p] = FALSE] ELSE t, Tail(ps))
+TfSweep(D, ord, t) == TfSweepFrom(D, ord, t, TfPairList(Len(ord), 1, 2))
+RECURSIVE TfFix(_, _, _)
+TfFix(D, ord, t) == LET t2 == TfSweep(D, ord, t) IN IF t2 = t THEN t ELSE TfFix(D, ord, t2)
+RECURSIVE TfGroups(_, _, _, _, _)
+TfGroups(ord, t, i, R, acc) ==
+  IF i > Len(ord) THEN acc
+  ELSE IF ord[i] \in R THEN TfGroups(ord, t, i + 1, R, Append(acc, {}))
+  ELSE LET g == {ord[i]} \cup {ord[j] : j \in {j \in (i + 1)..Len(ord) : t[<<i, j>>]}}
+       IN TfGroups(ord, t, i + 1, R \cup g, Append(acc, g))
+TfBlocks(D, ord) == ToSet(TfGroups(ord, TfFix(D, ord, TfInit(D, ord)), 1, {}, <<>>)) \ {{}}
+
 (* ---------- nfa_find_epsilon_path (repaired) ---------- *)
 (* state: [visited, todo, bp, cur, found]; bp a set of <<target, src>> back-pointers *)
 PathInit(R) == [visited |-> R, todo |-> R, bp |-> {}, cur |-> "~none~", found |-> FALSE]
